@@ -108,6 +108,13 @@ def run_case(case):
         # the engine was used before, for other answers implying another total (estimated from them)
         eng.estimate([(Q, 3.0 * y + 1.0, s, p) for Q, y, s, p in ms], total=None)
         out.classes.append('prior_call_other_answers')
+    elif case['pub_seed'] % 4 == 3 and len(ms) >= 1:
+        # ... or for answers that contradict the public data so strongly that most weights collapse to (nearly) zero
+        Q0, y0, s0, p0 = ms[0]
+        big = np.zeros_like(np.asarray(y0, dtype=float)); big[0] = 5000.0
+        eng.estimate([(Q0, big, min(1.0, s0), p0)], total=5000.0)
+        out.classes.append('prior_call_collapsing_weights')
+    start_w = None if not any(c.startswith('prior_call') for c in out.classes) else np.asarray(eng.weights, dtype=float).copy()
     est = eng.estimate(ms, total=case['total'])
     w = np.asarray(est.weights, dtype=float)
     if case['pub_seed'] % 3 == 0:
@@ -146,12 +153,15 @@ def run_case(case):
     # fit
     metric = case['metric']
     Tw = weighted_table(recs, w, shape)
-    Tu = weighted_table(recs, np.full(n, total / n), shape)
+    # A fresh engine starts from uniform weights; a reused engine starts from the weights of its previous call
+    # (rescaled): the line search guarantees "no worse than the start", which is what is compared in that case.
+    ref_w = np.full(n, total / n) if start_w is None or not np.all(np.isfinite(start_w)) or start_w.sum() <= 0 else start_w * (total / start_w.sum())
+    Tu = weighted_table(recs, ref_w, shape)
     lw = inf.loss_from_answers(meas, lambda proj: oracles.marg(Tw, attrs, proj), metric)
     lu = inf.loss_from_answers(meas, lambda proj: oracles.marg(Tu, attrs, proj), metric)
     scale = inf.loss_from_answers(meas, lambda proj: np.zeros([shape[attrs.index(a)] for a in proj]), metric)   # loss of the all-zero table
     if lw > lu * (1 + 1e-9) + 1e-9 * scale + 1e-300:
-        return out.fail('worse_than_uniform', 'loss %r of the reweighted public data exceeds the loss %r of uniformly weighted public data (total %r, %s)' % (lw, lu, total, metric))
+        return out.fail('worse_than_uniform', 'loss %r of the reweighted public data exceeds the loss %r of %s public data (total %r, %s)' % (lw, lu, 'uniformly weighted' if start_w is None else 'the previously weighted (starting point)', total, metric))
     cells = set()
     for m in meas:
         idx = [attrs.index(a) for a in m.proj]
